@@ -515,8 +515,8 @@ def gen_behaviours(consts, emit_ops, timeout):
     return behs, res
 
 
-def record_test_suite():
-    """Run the repository's own tests on a scratch copy of /repo's working tree with harness/testrecorder.py loaded;
+def record_test_suite(calls=False):
+    """(calls=True: record the search / replacement calls instead and return them.)  Run the repository's own tests on a scratch copy of /repo's working tree with harness/testrecorder.py loaded;
     return (recorded transitions, statistics).  The scratch copy lives outside /repo and /verif and is removed."""
     import shutil
     import subprocess
@@ -530,13 +530,16 @@ def record_test_suite():
         dst = os.path.join(tmp, "repo")
         shutil.copytree(repo, dst, ignore=shutil.ignore_patterns(".git", "docs", "perf", "__pycache__", "*.egg-info", ".pytest_cache"))
         rec = os.path.join(tmp, "events.json")
-        env = dict(os.environ, PYTHONPATH=dst + os.pathsep + here, MOFUN_VERIF_RECORD=rec, PYTHONDONTWRITEBYTECODE="1")
+        env = dict(os.environ, PYTHONPATH=dst + os.pathsep + here, PYTHONDONTWRITEBYTECODE="1")
+        env["MOFUN_VERIF_RECORD_CALLS" if calls else "MOFUN_VERIF_RECORD"] = rec
         p = subprocess.run([sys.executable, "-m", "pytest", "-q", "-p", "no:cacheprovider", "-p", "harness.testrecorder", "tests"],
                            cwd=dst, env=env, stdout=subprocess.PIPE, stderr=subprocess.STDOUT, text=True, timeout=1500)
         if not os.path.exists(rec):
             raise MachineryError("recording the repository's tests produced nothing (pytest rc=%s):\n%s" % (p.returncode, p.stdout[-2000:]))
         with open(rec) as fh:
             d = json.load(fh)
+        if calls:
+            return d["calls"], {"pytest_rc": p.returncode, "pytest_summary": p.stdout.strip().splitlines()[-1][:200] if p.stdout.strip() else ""}
         d["stats"]["pytest_rc"] = p.returncode
         d["stats"]["pytest_summary"] = p.stdout.strip().splitlines()[-1][:200] if p.stdout.strip() else ""
         return d["events"], d["stats"]
